@@ -468,9 +468,55 @@ def check_evaluator(c):
                       'episode_rewards': exp_r.tolist(), 'episode_steps': exp_s.tolist()})
 
 
+@st.composite
+def nolimit_histories(draw):
+  nsteps = draw(st.integers(4, 40))
+  return {'kind': 'nolimit', 'batch': 8, 'sticky': draw(st.booleans()),
+          'keys': [[draw(st.integers(0, 2**32 - 1)), draw(st.integers(0, 2**32 - 1))]],
+          'actions': draw(st.lists(st.lists(st.integers(0, 3), min_size=8, max_size=8), min_size=nsteps, max_size=nsteps))}
+
+
+def check_nolimit(c):
+  """envs.create(..., episode_length=None) builds no EpisodeWrapper: there is no time limit, and auto-reset still applies.
+  Differential oracle: it must behave, field by field, as the same environment with a time limit that is never reached
+  (that configuration's accounting is what the reference model verifies for L = 1..20)."""
+  m = mods()
+  jp = m['jp']
+  batch = c['batch']
+  _, reset_a, step_a = get_fns('create', None, 1, c['sticky'], batch, False)
+  _, reset_b, step_b = get_fns('create', 10 ** 6, 1, c['sticky'], batch, False)
+  arg, _ = reset_keys('create', c['keys'], batch)
+  sa, sb = reset_a(arg), reset_b(arg)
+  ended, after_end = False, False
+
+  def same(where):
+    for name, get in (('obs', lambda s: s.obs), ('reward', lambda s: s.reward), ('done', lambda s: s.done),
+                      ('inner_t', lambda s: s.pipeline_state['t']), ('metric', lambda s: s.metrics['m2'])):
+      a, b = np.asarray(get(sa)), np.asarray(get(sb))
+      if not np.array_equal(a, b):
+        i = int(np.argwhere(np.atleast_1d((a != b).reshape(batch, -1).any(axis=1)))[0][0])
+        raise Violation('no_limit_' + name, f'create(episode_length=None, sticky={c["sticky"]}) {where}: member {i} {name} = {a[i].tolist()}, '
+                        f'with a time limit that is never reached {b[i].tolist()}', labels={'field': name, 'path': 'create_no_limit'})
+  same('after reset')
+  if np.any(np.asarray(sa.done) != 0):
+    raise Violation('reset_done', 'create(episode_length=None): done != 0 after reset')
+  for si, acts in enumerate(c['actions']):
+    a = jp.array(np.array(acts, np.float32).reshape(batch, 1))
+    after_end = after_end or ended
+    sa, sb = step_a(sa, a), step_b(sb, a)
+    same(f'wrapped step {si}')
+    ended = ended or bool(np.any(np.asarray(sb.done) == 1))
+  return dict(fp=fingerprint(c), nontrivial=bool(after_end), evals=len(c['actions']) * batch,
+              labels=['path:create_no_limit', 'has:termination' if ended else 'no_termination'],
+              sample={'path': 'create(episode_length=None)', 'sticky': c['sticky'], 'wrapped_steps': len(c['actions']),
+                      'episode_ended': ended})
+
+
 def tasks(tier, seed):
   q = tier == 'quick'
   out = []
+  for _ in range(2):
+    out.append({'kind': 'nolimit', 'n': 8 if q else 150})
   for path in ('wrap', 'create'):
     for sticky in (False, True):
       for with_eval in (False, True):
@@ -496,13 +542,17 @@ def run_task(task, ctx):
     ctx.run_given(histories(), check_history, task['n'], task['seed'], check='history')
   elif k == 'unroll':
     ctx.run_given(unrolls(), check_unroll, task['n'], task['seed'], check='unroll')
+  elif k == 'nolimit':
+    ctx.run_given(nolimit_histories(), check_nolimit, task['n'], task['seed'], check='nolimit')
   else:
     ctx.run_given(evaluations(), check_evaluator, task['n'], task['seed'], check='evaluator')
 
 
 def replay(case, check=None):
   kind = case.get('kind', 'history')
-  if kind == 'unroll':
+  if kind == 'nolimit':
+    check_nolimit(case)
+  elif kind == 'unroll':
     check_unroll(case)
   elif kind == 'evaluator':
     check_evaluator(case)
